@@ -831,6 +831,33 @@ impl Acc {
     }
 }
 
+/// text_utf8() over every byte string of length <= 4 over the alphabet (and the same behind 8190
+/// bytes of ASCII): the lossy UTF-8 reading of the whole body, whatever the header says, never an error.
+fn utf8_sweep(ctx: &Ctx) -> u64 {
+    let max_len = 4;
+    let total = n_strings(max_len);
+    let ct = ct_for(encoding_rs::SHIFT_JIS, true);
+    let viol = std::sync::atomic::AtomicU64::new(0);
+    (0..total).into_par_iter().for_each(|i| {
+        let tail = nth_string(i, max_len);
+        for pad in [0usize, 8190] {
+            let mut body = vec![b'A'; pad];
+            body.extend_from_slice(&tail);
+            let (wire, body_start) = build_wire(&ct, &body);
+            let want = String::from_utf8_lossy(&body).into_owned().into_bytes();
+            let got = exec(&wire, body_start, None, None, Entry::TextUtf8, &[], None, false);
+            if !matches!(&got, Got::Ok(o) if *o == want) {
+                let c = Case { ct: ct.clone(), session_default: None, request_default: None, entry: Entry::TextUtf8, body: body.clone(), cuts: vec![], uniform: None };
+                if let Some(v) = judge(&c, &got, None, std::slice::from_ref(&want)) {
+                    viol.fetch_add(1, std::sync::atomic::Ordering::Relaxed);
+                    ctx.violation(v.0, v.1, c.to_json(), 950_000_000_000_000 + (i * 2 + (pad > 0) as usize) as u64);
+                }
+            }
+        }
+    });
+    2 * total as u64
+}
+
 fn report(ctx: &Ctx, acc: &mut Acc, c: &Case, v: (String, String), rank: u64) {
     acc.viol += 1;
     ctx.violation(v.0, v.1, c.to_json(), rank);
@@ -1436,6 +1463,8 @@ pub fn c18(ctx: &Ctx) -> Report {
     let (a, a_info) = part_a(ctx, &probe);
     eprintln!("C18 part A: {} executions, {:.1}s", a.evals, t.elapsed().as_secs_f64());
     let t = std::time::Instant::now();
+    let n_utf8 = utf8_sweep(ctx);
+    ctx.count("text_utf8_sweep_executions", n_utf8);
     let (l, l_info) = part_b_large(ctx);
     eprintln!("C18 part B (8 KiB boundaries): {} executions, {:.1}s", l.evals, t.elapsed().as_secs_f64());
     let t = std::time::Instant::now();
